@@ -326,4 +326,61 @@ func ruleW2b(r *Run) {
 	if n == 0 {
 		r.Undec("uses of table value types", 0, "nil placeholders exist but no use of reflect.TypeOf(<table value>) was found")
 	}
+	// part 2: GetConverter(reflect.TypeOf(x), ..) written inline, x an interface{} value
+	m := 0
+	p.EachFunc(func(pk *packages.Package, fd *ast.FuncDecl) {
+		if pk != pkg {
+			return
+		}
+		parents := parentMap(fd.Body)
+		fobj, _ := info.Defs[fd.Name].(*types.Func)
+		isConverterFn := false
+		if fobj != nil {
+			sig := fobj.Type().(*types.Signature)
+			if sig.Params().Len() == 3 && sig.Results().Len() == 0 && sig.Params().At(1).Type().String() == "interface{}" && sig.Params().At(2).Type().String() == "interface{}" {
+				isConverterFn = true
+			}
+		}
+		ast.Inspect(fd.Body, func(k ast.Node) bool {
+			c, ok := k.(*ast.CallExpr)
+			if !ok || len(c.Args) != 2 {
+				return true
+			}
+			if f := Callee(info, c); f == nil || p.FuncName(f) != "io.GetConverter" {
+				return true
+			}
+			tc, ok := ast.Unparen(c.Args[0]).(*ast.CallExpr)
+			if !ok || len(tc.Args) != 1 {
+				return true
+			}
+			if f := Callee(info, tc); f == nil || FullName(f) != "reflect.TypeOf" {
+				return true
+			}
+			o := identObj(info, tc.Args[0])
+			if o == nil {
+				return true
+			}
+			m++
+			key := fmt.Sprintf("converter source type of %s in %s", o.Name(), p.DeclName(fd))
+			if isConverterFn {
+				r.Ok(key, c.Pos(), "inside a converter, which runs only on the value whose (non-nil) type selected it")
+				return true
+			}
+			nonNil := false
+			for _, fc := range factsWithSwitch(parents, c) {
+				be, ok := fc.e.(*ast.BinaryExpr)
+				if !ok || identObj(info, be.X) != o {
+					continue
+				}
+				if id, ok := ast.Unparen(be.Y).(*ast.Ident); !ok || id.Name != "nil" {
+					continue
+				}
+				if (be.Op == token.NEQ && !fc.neg) || (be.Op == token.EQL && fc.neg) {
+					nonNil = true
+				}
+			}
+			r.Check(nonNil, key, c.Pos(), "nil excluded first", fmt.Sprintf("%s is an interface{} that can be nil (io.Convert is called with arguments taken from the wire); reflect.TypeOf(nil) is a nil reflect.Type and GetConverter calls methods on it: converting a nil argument to any typed parameter panics with a nil pointer dereference", o.Name()))
+			return true
+		})
+	})
 }
